@@ -29,6 +29,24 @@ using namespace libcellml;
 
 namespace {
 
+// ================================================================================================ known defects
+// Defects of the tree this harness was written against that would otherwise cost a crashed or hung child in a large share
+// of the scenarios, or blur every verdict. Whether each is present in the library under test is *probed* once per process
+// (probeDefects(), forked children); while present, the generator keeps the trigger out of the routine cases (counted as
+// excluded:…) and a sample of cases still lets it through, matched by known.d/C07.json. When a defect is fixed the probe
+// says so and the exclusion disappears by itself; the entry in known.d/C07.json then has to go.
+struct Defects
+{
+    bool fetchSkipsUnitChildOfLocalUnitChild = true; // resolveImports(): u imported, u = {v}, v = {w}, w imported: w never fetched
+    bool fetchSkipsUnitChildOfComponentUnits = true; // c imported, variable of c in v, v = {w}, w imported: w never fetched
+    bool fetchSkipsUnitsOfChildComponent = true; // c imported, child d of c with a variable in w, w imported: w never fetched
+    bool falseFlattenCycle = true; // flattenModel(): sibling unit imports through the same files are reported as a cycle
+    bool unitCycleOverflow = true; // flattenModel(): checkUnitsForCycles() recurses without bound on cyclic ordinary units
+    bool flattenAfterCycle = true; // flattenModel() after a failed resolution misses cycles through child components / component units
+    bool shallowFetch() const { return fetchSkipsUnitChildOfLocalUnitChild || fetchSkipsUnitChildOfComponentUnits || fetchSkipsUnitsOfChildComponent; }
+};
+Defects gDef;
+
 // ================================================================================================ graph as data
 
 struct UEnt
@@ -350,6 +368,7 @@ struct Eval
     std::string firstBlind; // pattern in front of the first import that is only reached on unfetched paths
     int maxDepth = 0;
     bool usesU = false, usesC = false, diamond = false;
+    bool siblingUnitImports = false; // some reached local units have two or more children that need an import
     std::map<int, int> fileVisits;
     long steps = 0;
 
@@ -416,14 +435,24 @@ std::string blindPattern(const std::string &path)
 {
     // kk: unit child of a local unit child; vk / nk: unit child of the (local) units of a variable / cn;
     // cv / cn: units of a variable / cn of a (local) child component
-    static const char *const pats[] = {"kk", "vk", "nk", "cv", "cn"};
+    struct Pat
+    {
+        const char *p;
+        const bool *on;
+        const char *tok;
+    };
+    static const Pat pats[] = {{"kk", &gDef.fetchSkipsUnitChildOfLocalUnitChild, "unit-child-of-local-unit-child"},
+                               {"vk", &gDef.fetchSkipsUnitChildOfComponentUnits, "unit-child-of-component-units"},
+                               {"nk", &gDef.fetchSkipsUnitChildOfComponentUnits, "unit-child-of-component-units"},
+                               {"cv", &gDef.fetchSkipsUnitsOfChildComponent, "units-of-child-component"},
+                               {"cn", &gDef.fetchSkipsUnitsOfChildComponent, "units-of-child-component"}};
     size_t best = std::string::npos;
     std::string tok;
-    for (const char *p : pats) {
-        size_t at = path.find(p);
+    for (const auto &p : pats) {
+        size_t at = *p.on ? path.find(p.p) : std::string::npos;
         if (at != std::string::npos && at < best) {
             best = at;
-            tok = p[0] == 'c' ? "units-of-child-component" : "children-of-local-units";
+            tok = p.tok;
         }
     }
     return tok;
@@ -521,6 +550,7 @@ struct Walker
         }
     }
     std::map<std::string, std::string> blindSeen;
+    size_t importVisits = 0;
 
     void units(int file, const std::string &name, char edge, const std::string &path)
     {
@@ -540,17 +570,22 @@ struct Walker
             onEntity(file, 'U', name, path);
         }
         if (u->imp) {
+            ++importVisits;
             ev.usesU = true;
             noteImport(file, 'U', name, path);
             if (importTarget(u->file, path + "I")) {
                 units(u->file, u->ref, 'I', path + "I");
             }
         } else {
+            int needing = 0;
             for (const auto &k : u->kids) {
                 if (!isStd(k)) {
+                    size_t before = importVisits;
                     units(file, k, 'k', path + "k");
+                    needing += importVisits > before ? 1 : 0;
                 }
             }
+            ev.siblingUnitImports = ev.siblingUnitImports || needing >= 2;
         }
         stack.pop_back();
     }
@@ -730,7 +765,16 @@ std::vector<Fault> applicableFaults(const Graph &g, bool fileRoute, bool bounded
         if (fetched) {
             fetchedEnt.insert(id);
         }
-        for (size_t i = 0; i < stack.size(); ++i) {
+        // the entity that gets the back-edge: an import element (redirected) or a leaf definition (becomes an import)
+        bool source;
+        if (k == 'U') {
+            const UEnt *u = findU(g.files[static_cast<size_t>(f)], n);
+            source = u->imp || std::all_of(u->kids.begin(), u->kids.end(), isStd);
+        } else {
+            const CEnt *c = findC(g.files[static_cast<size_t>(f)].comps, n);
+            source = c->imp || (c->kids.empty() && std::all_of(c->varUnits.begin(), c->varUnits.end(), isStd) && std::all_of(c->cnUnits.begin(), c->cnUnits.end(), isStd));
+        }
+        for (size_t i = 0; source && i < stack.size(); ++i) {
             if (stack[i].kind != k) {
                 continue;
             }
@@ -960,25 +1004,28 @@ CEnt cImport(const std::string &n, int file, const std::string &ref)
 //            5 child d (local) with a variable in w, w imported | 6 cn in w, w imported | 7 imported, with a local child |
 //            8 cn in v = {w}, w imported | 9 child d (local) with an imported child e
 // Returns what the next file has to export: 'U', 'C' or 0.
-char buildShape(Src &src, FSpec &f, char kind, int shape, int next)
+char buildShape(Src &src, FSpec &f, char kind, int shape, int next, const std::string &sfx)
 {
+    // Helper entities carry the file index in their name (sfx) unless the scenario asks for colliding names: an import
+    // alias that equals the name of a unit child of the imported definition sends flattenModel into unbounded recursion.
+    const std::string w = "w" + sfx, w2 = "wb" + sfx, v = "v" + sfx, d = "d" + sfx, e = "e" + sfx;
     if (kind == 'U') {
         switch (shape) {
         case 0: f.units.push_back(uLocal("u", {"second"})); return 0;
         case 1: f.units.push_back(uImport("u", next, "u")); return 'U';
         case 2:
-            f.units.push_back(uLocal("u", {"w", "second"}));
-            f.units.push_back(uImport("w", next, "u"));
+            f.units.push_back(uLocal("u", {w, "second"}));
+            f.units.push_back(uImport(w, next, "u"));
             return 'U';
         case 3:
-            f.units.push_back(uLocal("u", {"v"}));
-            f.units.push_back(uLocal("v", {"w", "metre"}));
-            f.units.push_back(uImport("w", next, "u"));
+            f.units.push_back(uLocal("u", {v}));
+            f.units.push_back(uLocal(v, {w, "metre"}));
+            f.units.push_back(uImport(w, next, "u"));
             return 'U';
         default:
-            f.units.push_back(uLocal("u", {"w", "w2"}));
-            f.units.push_back(uImport("w", next, "u"));
-            f.units.push_back(uImport("w2", next, "u"));
+            f.units.push_back(uLocal("u", {w, w2}));
+            f.units.push_back(uImport(w, next, "u"));
+            f.units.push_back(uImport(w2, next, "u"));
             f.group = src.below(2) == 1;
             return 'U';
         }
@@ -987,53 +1034,53 @@ char buildShape(Src &src, FSpec &f, char kind, int shape, int next)
     case 0: f.comps.push_back(cLocal("c", {"second"})); return 0;
     case 1: f.comps.push_back(cImport("c", next, "c")); return 'C';
     case 2:
-        f.comps.push_back(cLocal("c", {"w"}));
-        f.units.push_back(uImport("w", next, "u"));
+        f.comps.push_back(cLocal("c", {w}));
+        f.units.push_back(uImport(w, next, "u"));
         return 'U';
     case 3:
-        f.comps.push_back(cLocal("c", {"v"}));
-        f.units.push_back(uLocal("v", {"w"}));
-        f.units.push_back(uImport("w", next, "u"));
+        f.comps.push_back(cLocal("c", {v}));
+        f.units.push_back(uLocal(v, {w}));
+        f.units.push_back(uImport(w, next, "u"));
         return 'U';
     case 4: {
         CEnt c = cLocal("c", {"second"});
-        c.kids.push_back(cImport("d", next, "c"));
+        c.kids.push_back(cImport(d, next, "c"));
         f.comps.push_back(c);
         return 'C';
     }
     case 5: {
         CEnt c = cLocal("c", {"second"});
-        c.kids.push_back(cLocal("d", {"w"}));
+        c.kids.push_back(cLocal(d, {w}));
         f.comps.push_back(c);
-        f.units.push_back(uImport("w", next, "u"));
+        f.units.push_back(uImport(w, next, "u"));
         return 'U';
     }
     case 6: {
         CEnt c = cLocal("c", {"second"});
-        c.cnUnits = {"w"};
+        c.cnUnits = {w};
         f.comps.push_back(c);
-        f.units.push_back(uImport("w", next, "u"));
+        f.units.push_back(uImport(w, next, "u"));
         return 'U';
     }
     case 7: {
         CEnt c = cImport("c", next, "c");
-        c.kids.push_back(cLocal("d", {"second"}));
+        c.kids.push_back(cLocal(d, {"second"}));
         f.comps.push_back(c);
         return 'C';
     }
     case 8: {
         CEnt c = cLocal("c", {"second"});
-        c.cnUnits = {"v"};
+        c.cnUnits = {v};
         f.comps.push_back(c);
-        f.units.push_back(uLocal("v", {"w", "kilogram"}));
-        f.units.push_back(uImport("w", next, "u"));
+        f.units.push_back(uLocal(v, {w, "kilogram"}));
+        f.units.push_back(uImport(w, next, "u"));
         return 'U';
     }
     default: {
         CEnt c = cLocal("c", {"second"});
-        CEnt d = cLocal("d", {"metre"});
-        d.kids.push_back(cImport("e", next, "c"));
-        c.kids.push_back(d);
+        CEnt dd = cLocal(d, {"metre"});
+        dd.kids.push_back(cImport(e, next, "c"));
+        c.kids.push_back(dd);
         f.comps.push_back(c);
         return 'C';
     }
@@ -1042,7 +1089,7 @@ char buildShape(Src &src, FSpec &f, char kind, int shape, int next)
 
 // A chain f0 -> f1 -> … -> fn of exactly n library files. `universe` 0: the bounded catalogue (shapes 0-4 / 0-6).
 // shard: called with the first combined choice (main kind x shape of f1); returns false when the case belongs to another shard.
-bool genChain(Src &src, int n, bool bounded, bool allowBlind, const std::function<bool(size_t)> &mine, Graph &g)
+bool genChain(Src &src, int n, bool bounded, bool allowBlind, bool collide, const std::function<bool(size_t)> &mine, Graph &g)
 {
     std::vector<int> us, cs;
     for (int s : {1, 2, 3, 4}) {
@@ -1096,7 +1143,7 @@ bool genChain(Src &src, int n, bool bounded, bool allowBlind, const std::functio
         if (i < n) {
             shape = i == 1 ? shape1 : (need == 'U' ? us[src.below(us.size())] : cs[src.below(cs.size())]);
         }
-        need = buildShape(src, f, need, shape, i + 1);
+        need = buildShape(src, f, need, shape, i + 1, collide ? std::string() : std::to_string(i));
         if (i == 1 && mainKind == 2) {
             f.comps.push_back(cLocal("cl", {"second"}));
         } else if (i == 1 && mainKind == 3) {
@@ -1107,9 +1154,58 @@ bool genChain(Src &src, int n, bool bounded, bool allowBlind, const std::functio
     return true;
 }
 
+bool unitsNeedImport(const FSpec &f, const std::string &name, int depth)
+{
+    const UEnt *u = isStd(name) ? nullptr : findU(f, name);
+    if (u == nullptr || depth > 8) {
+        return false;
+    }
+    if (u->imp) {
+        return true;
+    }
+    return std::any_of(u->kids.begin(), u->kids.end(), [&](const std::string &k) { return unitsNeedImport(f, k, depth + 1); });
+}
+
+// Known (flattening, outside C07): when units X of file i import units R of file j and the definition of R (through
+// local units) refers to units that are *also* called X in file j, flattening renames R to X, which then refers to itself:
+// transferUnitsRenamingIfRequired() recurses without bound.
+bool aliasCollision(const Graph &g)
+{
+    for (const auto &f : g.files) {
+        for (const auto &x : f.units) {
+            if (!x.imp || x.file < 0) {
+                continue;
+            }
+            const FSpec &t = g.files[static_cast<size_t>(x.file)];
+            std::vector<std::string> todo = {x.ref}, seen;
+            while (!todo.empty()) {
+                std::string n = todo.back();
+                todo.pop_back();
+                if (std::find(seen.begin(), seen.end(), n) != seen.end()) {
+                    continue;
+                }
+                seen.push_back(n);
+                const UEnt *u = findU(t, n);
+                if (u == nullptr || u->imp) {
+                    continue;
+                }
+                for (const auto &k : u->kids) {
+                    if (k == x.name && k != x.ref) {
+                        return true;
+                    }
+                    if (!isStd(k)) {
+                        todo.push_back(k);
+                    }
+                }
+            }
+        }
+    }
+    return false;
+}
+
 // A random layered graph: imports only point to files with a larger index (no file-level cycle), any number of
 // entities per file, diamonds, repeated imports, entities nothing depends on.
-void genDag(Src &src, int n, Graph &g)
+void genDag(Src &src, int n, bool collide, bool allowKnown, Graph &g, int &excluded)
 {
     static const char *const un[] = {"ua", "ub", "uc"};
     static const char *const cn[] = {"ca", "cb", "cc"};
@@ -1117,6 +1213,7 @@ void genDag(Src &src, int n, Graph &g)
     g.files.assign(static_cast<size_t>(n) + 1, FSpec());
     for (int i = n; i >= 0; --i) {
         FSpec f = newFile(i);
+        const std::string sfx = collide ? std::string() : std::to_string(i);
         int nu = i == 0 ? static_cast<int>(src.below(3)) : 1 + static_cast<int>(src.below(3));
         int nc = static_cast<int>(src.below(3));
         auto pickUnitsTarget = [&](int &file, std::string &ref) {
@@ -1143,7 +1240,7 @@ void genDag(Src &src, int n, Graph &g)
         std::vector<UEnt> units(static_cast<size_t>(nu));
         for (int k = nu - 1; k >= 0; --k) {
             UEnt u;
-            u.name = un[k];
+            u.name = un[k] + sfx;
             uint64_t t = src.below(3);
             if (t == 1 && i < n) {
                 u.imp = true;
@@ -1152,7 +1249,7 @@ void genDag(Src &src, int n, Graph &g)
                 int kids = 1 + static_cast<int>(src.below(2));
                 for (int q = 0; q < kids; ++q) {
                     if (k + 1 < nu && src.below(3) != 0) {
-                        u.kids.push_back(un[k + 1 + static_cast<int>(src.below(static_cast<uint64_t>(nu - k - 1)))]);
+                        u.kids.push_back(un[k + 1 + static_cast<int>(src.below(static_cast<uint64_t>(nu - k - 1)))] + sfx);
                     } else {
                         u.kids.push_back(stdu[src.below(3)]);
                     }
@@ -1172,12 +1269,19 @@ void genDag(Src &src, int n, Graph &g)
         int kidSerial = 0;
         for (int k = 0; k < nc; ++k) {
             CEnt c;
-            c.name = cn[k];
+            c.name = cn[k] + sfx;
             uint64_t t = src.below(4);
             if (t == 1 && i < n && pickCompTarget(c.file, c.ref)) {
                 c.imp = true;
                 if (src.flip(15)) {
-                    c.kids.push_back(cLocal("d" + std::to_string(kidSerial++), {someUnits()}));
+                    // Known (flattening, outside C07): a child of an imported component that uses imported units makes
+                    // flattenComponent() dereference null; such a child gets standard units unless known defects are let through.
+                    std::string ku = someUnits();
+                    if (!allowKnown && unitsNeedImport(f, ku, 0)) {
+                        ku = "second";
+                        ++excluded;
+                    }
+                    c.kids.push_back(cLocal("d" + std::to_string(kidSerial++) + "_" + sfx, {ku}));
                 }
             } else if (t == 2) {
                 c.varUnits.push_back(someUnits());
@@ -1192,7 +1296,7 @@ void genDag(Src &src, int n, Graph &g)
                 int kids = 1 + static_cast<int>(src.below(2));
                 for (int q = 0; q < kids; ++q) {
                     CEnt d;
-                    d.name = "d" + std::to_string(kidSerial++);
+                    d.name = "d" + std::to_string(kidSerial++) + "_" + sfx;
                     uint64_t t2 = src.below(3);
                     if (t2 == 1 && i < n && pickCompTarget(d.file, d.ref)) {
                         d.imp = true;
@@ -1287,6 +1391,8 @@ struct Scenario
     std::string dir; // absolute, with trailing '/'
     unsigned skipMask = 0;
     int limit[P_COUNT];
+    bool cycleThroughComponent = false; // the import cycle made by the fault passes through a child component or the units of a component
+    bool deepRecursionExpected = false; // import cycle across directories: the importer only stops when the growing path can no longer be opened
 };
 
 std::string oneLine(std::string s)
@@ -1524,13 +1630,18 @@ struct ChildRun
                 if (ev.unitCycle()) {
                     emit("CNT\tflatten_null_on_unit_cycle");
                 } else {
-                    fail("C07.flatten|null-on-resolved|" + state + after + "|" + issueClass(firstDesc) + "|unfetched:" + ev.blindToken(), "resolveImports returned true, flattenModel returned null:" + issues(im));
+                    std::string loc = "unfetched:" + ev.blindToken();
+                    if (ev.blindToken() == "nothing" && issueClass(firstDesc) == "cyclic") {
+                        loc = ev.siblingUnitImports ? "sibling-unit-imports" : "no-sibling-unit-imports";
+                    }
+                    fail("C07.flatten|null-on-resolved|" + state + after + "|" + issueClass(firstDesc) + "|" + loc, "resolveImports returned true, flattenModel returned null:" + issues(im));
                 }
             }
         } else if (ev.unsat()) {
             const Failure *why = ev.firstHard();
             if (flat != nullptr) {
-                fail("C07.flatten|non-null-on-unsatisfiable|" + why->reason + "|unfetched:" + ev.blindToken(), "an import cannot be satisfied (" + why->reason + " on path " + why->path + "), flattenModel returned a model");
+                const std::string loc = (ev.blindToken() == "nothing" && s.cycleThroughComponent && why->reason == "import-cycle") ? "cycle-through-component" : "unfetched:" + ev.blindToken();
+                fail("C07.flatten|non-null-on-unsatisfiable|" + why->reason + "|" + loc, "an import cannot be satisfied (" + why->reason + " on path " + why->path + "), flattenModel returned a model");
             }
         }
     }
@@ -1594,9 +1705,12 @@ void childMain(void *arg)
     signal(SIGALRM, SIG_DFL);
     // Runaway recursion must hit the end of the stack quickly: the sanitised workers run with a 1 GiB stack.
     struct rlimit rl;
-    if (getrlimit(RLIMIT_STACK, &rl) == 0 && (rl.rlim_cur == RLIM_INFINITY || rl.rlim_cur > (64ul << 20))) {
-        rl.rlim_cur = 64ul << 20;
-        setrlimit(RLIMIT_STACK, &rl);
+    if (getrlimit(RLIMIT_STACK, &rl) == 0) {
+        const rlim_t want = s.deepRecursionExpected ? (1ul << 30) : (64ul << 20);
+        if (s.deepRecursionExpected ? (rl.rlim_cur != RLIM_INFINITY && rl.rlim_cur < want) : (rl.rlim_cur == RLIM_INFINITY || rl.rlim_cur > want)) {
+            rl.rlim_cur = (rl.rlim_max == RLIM_INFINITY || rl.rlim_max >= want) ? want : rl.rlim_max;
+            setrlimit(RLIMIT_STACK, &rl);
+        }
     }
     ChildRun run(s);
     try {
@@ -1665,8 +1779,10 @@ std::string crashToken(const ChildResult &r)
     if (p != std::string::npos) {
         size_t e = r.diag.find_first_of(" \n", p + 18);
         kind = "asan:" + r.diag.substr(p + 18, e - p - 18);
-    } else if (r.diag.find("runtime error:") != std::string::npos) {
-        kind = "ubsan";
+    } else if ((p = r.diag.find("runtime error: ")) != std::string::npos) {
+        size_t e = r.diag.find_first_of("\n", p);
+        std::string what = r.diag.substr(p + 15, e - p - 15);
+        kind = "ubsan:" + std::string(what.find("null pointer") != std::string::npos ? "null-pointer" : what.substr(0, what.find(' ')));
     } else if (r.diag.find("terminate called") != std::string::npos) {
         kind = "uncaught";
     } else if (r.ret >= 1000) {
@@ -1756,10 +1872,12 @@ void run(Src &src, Case &c)
     Scenario sc;
     Graph g;
     std::string gen;
-    bool permissive = false, allowBlind = true, layoutSub = false;
+    bool permissive = false, allowBlind = true, layoutSub = false, collide = false, allowKnown = false;
     unsigned kindPick = 0, candPick = 0;
     bool bounded = false;
     int excluded = 0;
+    bool excludedUnitCycle = false;
+    int excludedImportedChildUnits = 0;
 
     // ---- plan-shaping choices first
     uint64_t universe = src.below(3); // 0: the bounded catalogue (also what --mode ex enumerates), 1: long chains, 2: layered random graphs
@@ -1778,7 +1896,7 @@ void run(Src &src, Case &c)
             c.count("enumeration_skips");
             return;
         }
-        bool mine = genChain(src, n, true, true, [&](size_t idx) { return !ex || gShards <= 0 || static_cast<long>((static_cast<size_t>(n) * 7 + idx) % static_cast<size_t>(gShards)) == gShard; }, g);
+        bool mine = genChain(src, n, true, true, false, [&](size_t idx) { return !ex || gShards <= 0 || static_cast<long>((static_cast<size_t>(n) * 7 + idx) % static_cast<size_t>(gShards)) == gShard; }, g);
         if (!mine) {
             c.text = "(belongs to another shard)";
             c.count("enumeration_skips");
@@ -1790,16 +1908,21 @@ void run(Src &src, Case &c)
         sc.fileRoute = src.below(3) != 2;
         sc.seqB = src.flip(35);
         permissive = src.flip(20);
-        allowBlind = src.flip(12);
+        allowKnown = src.flip(12); // let the known defects through in a sample of the cases
+        if (getenv("VERIF_C07_NO_EXCLUSIONS") != nullptr) {
+            allowKnown = true;
+        }
+        allowBlind = allowKnown || !gDef.shallowFetch();
+        collide = allowKnown && src.flip(50);
         layoutSub = sc.fileRoute && src.flip(20);
         kindPick = static_cast<unsigned>(src.below(33));
         candPick = static_cast<unsigned>(src.below(65536));
         if (universe == 1) {
             gen = "chain";
-            genChain(src, n, false, allowBlind, nullptr, g);
+            genChain(src, n, false, allowBlind, collide, nullptr, g);
         } else {
             gen = "layered";
-            genDag(src, n, g);
+            genDag(src, n, collide, allowKnown, g, excludedImportedChildUnits);
         }
         // decorations
         for (size_t i = 1; i < g.files.size(); ++i) {
@@ -1867,6 +1990,45 @@ void run(Src &src, Case &c)
     for (int &l : sc.limit) {
         l = 20;
     }
+    // The calls left out below are made when a saved case is replayed (so that every known finding has a replay) and when
+    // VERIF_C07_RUN_EXCLUDED / VERIF_C07_NO_EXCLUSIONS is set (development aids; the latter also changes what is generated).
+    static const bool noExclusions = getenv("VERIF_C07_NO_EXCLUSIONS") != nullptr || getenv("VERIF_C07_RUN_EXCLUDED") != nullptr || gMode == "replay";
+    // Known: flattenModel() -> checkUnitsForCycles() recurses without bound on a cycle of ordinary units. The call is left
+    // out (and counted) except in a sample, because every such scenario costs a crashed child.
+    bool flattenOnUnitCycle = noExclusions || !gDef.unitCycleOverflow || (bounded ? (fault.len == 1 && fault.file == 1 && sc.fileRoute && !sc.seqB) : allowKnown);
+    if (sc.evF.unitCycle() && !flattenOnUnitCycle) {
+        sc.skipMask |= 1u << P_FLAT_F;
+        excludedUnitCycle = true;
+    }
+    // Known: after a failed resolution flattenModel()'s own scan only follows chains of imports and unit children. An import
+    // cycle that passes through a child component or through the units of a component is not seen: flattenModel() then
+    // recurses without bound (crash) or keeps building an ever deeper model (no return within 300 s). A hang costs 320 s per
+    // scenario, so these calls are left out by construction (bounded universe: one representative per cycle length is kept
+    // where the outcome is a crash, see the replays for the hang).
+    bool cycleThroughComponent = false;
+    if (fault.kind == K_BACKEDGE) {
+        for (const auto &t : sc.evF.tops) {
+            for (const auto &fl : t.fails) {
+                cycleThroughComponent = cycleThroughComponent || (fl.reason == "import-cycle" && fl.path.find_first_of("cvn") != std::string::npos);
+            }
+        }
+    }
+    sc.cycleThroughComponent = cycleThroughComponent;
+    bool excludedCycleFlatten = false;
+    if (cycleThroughComponent && gDef.flattenAfterCycle && !noExclusions) {
+        sc.skipMask |= 1u << P_FLAT_F;
+        excludedCycleFlatten = true;
+    }
+    // An import cycle that crosses a directory boundary is never recognised by URL (".../sub/../sub/..." keeps growing); the
+    // importer stops when the path can no longer be opened, some thousand nested calls later. That terminates with the
+    // default stack of an unsanitised build, but not within the small stack the children normally get.
+    if (fault.kind == K_BACKEDGE) {
+        for (const auto &f : sc.faulted.files) {
+            sc.deepRecursionExpected = sc.deepRecursionExpected || !f.dir.empty();
+        }
+    }
+    // (with shared helper names there are more ways for the renaming in flattenModel() to go wrong than this predicate knows)
+    const bool collision = collide || aliasCollision(sc.healthy) || aliasCollision(sc.faulted);
 
     // ---- description, classes
     {
@@ -1948,7 +2110,38 @@ void run(Src &src, Case &c)
     if (excluded > 0) {
         c.count("excluded:C07.*|unfetched:*", excluded);
     }
+    if (excludedImportedChildUnits > 0) {
+        c.count("excluded:C07.crash|flatten@*|*|ubsan:null-pointer|libcellml::flattenComponent", excludedImportedChildUnits);
+    }
+    if (excludedCycleFlatten) {
+        c.count("excluded:C07.*|flatten@fault|back-edge|*(cycle-through-component)");
+    }
+    if (aliasCollision(sc.healthy)) {
+        c.cls("alias-collides-with-unit-child");
+    }
+    if (sc.deepRecursionExpected) {
+        c.cls("cycle-across-directories");
+    }
+    if (excludedUnitCycle) {
+        c.count("excluded:C07.crash|flatten@fault|units-cycle|*checkUnitsForCycles");
+    }
+    if (collide) {
+        c.cls("colliding-helper-names");
+    }
+    if (allowKnown) {
+        c.cls("known-defects-allowed");
+    }
     c.count("scenarios");
+    static bool probesReported = false;
+    if (!probesReported) {
+        probesReported = true;
+        c.count(std::string("defect-probe:fetch-skips-unit-child-of-local-unit-child=") + (gDef.fetchSkipsUnitChildOfLocalUnitChild ? "present" : "absent"));
+        c.count(std::string("defect-probe:fetch-skips-unit-child-of-component-units=") + (gDef.fetchSkipsUnitChildOfComponentUnits ? "present" : "absent"));
+        c.count(std::string("defect-probe:fetch-skips-units-of-child-component=") + (gDef.fetchSkipsUnitsOfChildComponent ? "present" : "absent"));
+        c.count(std::string("defect-probe:false-flatten-cycle=") + (gDef.falseFlattenCycle ? "present" : "absent"));
+        c.count(std::string("defect-probe:unit-cycle-overflow=") + (gDef.unitCycleOverflow ? "present" : "absent"));
+        c.count(std::string("defect-probe:flatten-after-cycle-through-component=") + (gDef.flattenAfterCycle ? "present" : "absent"));
+    }
 
     // ---- run
     const std::string base = runDirBase();
@@ -1985,14 +2178,24 @@ void run(Src &src, Case &c)
                 break;
             }
             if (r2.lastPhase == p && r2.ret == 1000 + SIGALRM) {
-                fails.emplace_back(std::string("C07.hang|") + kPhaseName[p] + "|" + sc.faultKind, std::string(kPhaseName[p]) + " did not return within 20 s and, run again, not within 300 s");
+                fails.emplace_back(std::string("C07.hang|") + kPhaseName[p] + "|" + sc.faultKind + (cycleThroughComponent ? "|cycle-through-component" : "|plain"),
+                                   std::string(kPhaseName[p]) + " did not return within 20 s and, run again, not within 300 s");
             } else {
                 r = r2;
                 p = r.lastPhase;
             }
         }
         if (r.ret != 1000 + SIGALRM) {
-            fails.emplace_back(std::string("C07.crash|") + kPhaseName[p] + "|" + sc.faultKind + "|" + crashToken(r),
+            // A stack overflow is sometimes reported without a single frame (the unwinder gives up); the frame is what
+            // tells findings apart, so ask again.
+            for (int again = 0; again < 3 && crashToken(r).find("|?") != std::string::npos; ++again) {
+                ChildResult r3 = runChild(sc);
+                if (r3.ret != 0 && r3.lastPhase == p && r3.ret != 1000 + SIGALRM) {
+                    r = r3;
+                }
+            }
+            std::string loc = collision && p % 2 == 1 ? "|colliding-names" : (cycleThroughComponent && p == P_FLAT_F ? "|cycle-through-component" : "");
+            fails.emplace_back(std::string("C07.crash|") + kPhaseName[p] + "|" + sc.faultKind + "|" + crashToken(r) + loc,
                                std::string(kPhaseName[p]) + " killed the process (" + std::to_string(r.ret) + "):\n" + r.diag.substr(r.diag.size() > 2500 ? r.diag.size() - 2500 : 0));
         }
         c.count("calls_that_killed_the_child");
@@ -2027,7 +2230,177 @@ void run(Src &src, Case &c)
     }
 }
 
+// Warm-up in the worker itself: UBSan's vptr check asks the kernel (a pipe per query) whether an object's memory is readable the
+// first time it meets a dynamic type; the answers are cached per process. Without this every forked child starts cold and
+// spends most of its time on those queries. The graph is healthy and lives in the importer's library: nothing here can hang.
+void warmUp()
+{
+    Graph g;
+    g.files.push_back(newFile(0));
+    g.files.push_back(newFile(1));
+    g.files.push_back(newFile(2));
+    g.files[0].units.push_back(uImport("u", 1, "u"));
+    g.files[0].comps.push_back(cImport("c", 1, "c"));
+    g.files[1].units.push_back(uLocal("u", {"w1", "second"}));
+    g.files[1].units.push_back(uImport("w1", 2, "u"));
+    CEnt c = cLocal("c", {"w1"});
+    c.kids.push_back(cImport("d1", 2, "c"));
+    g.files[1].comps.push_back(c);
+    g.files[2].units.push_back(uLocal("u", {"second"}));
+    g.files[2].comps.push_back(cLocal("c", {"u"}));
+    auto imp = Importer::create(true);
+    for (int i = 1; i <= 2; ++i) {
+        auto p = Parser::create(true);
+        imp->addModel(p->parseModel(serialise(g, i)), g.files[static_cast<size_t>(i)].fname);
+    }
+    auto p = Parser::create(true);
+    auto m = p->parseModel(serialise(g, 0));
+    imp->resolveImports(m, "/nonexistent-c07/");
+    (void)checkLogger(imp);
+    (void)m->hasUnresolvedImports();
+    auto flat = imp->flattenModel(m);
+    (void)flat;
+    auto m2 = p->parseModel(serialise(g, 0));
+    auto imp2 = Importer::create(false);
+    imp2->resolveImports(m2, "/nonexistent-c07/");
+    (void)checkLogger(imp2);
+    imp2->flattenModel(m2);
+}
+
+// ---- probes: which of the known defects does the library under test still have?
+struct ProbeJob
+{
+    int which;
+};
+
+Graph probeGraph(int which)
+{
+    Graph g;
+    for (int i = 0; i < 4; ++i) {
+        g.files.push_back(newFile(i));
+    }
+    g.files[3].units.push_back(uLocal("u", {"second"}));
+    g.files[3].comps.push_back(cLocal("c", {"second"}));
+    g.files[2].units.push_back(uLocal("u", {"second"}));
+    g.files[2].comps.push_back(cLocal("c", {"second"}));
+    switch (which) {
+    case 0: // u = {v1}, v1 = {w1}, w1 imported
+        g.files[0].units.push_back(uImport("u", 1, "u"));
+        g.files[1].units.push_back(uLocal("u", {"v1"}));
+        g.files[1].units.push_back(uLocal("v1", {"w1", "metre"}));
+        g.files[1].units.push_back(uImport("w1", 2, "u"));
+        break;
+    case 1: // variable of c in v1 = {w1}, w1 imported
+        g.files[0].comps.push_back(cImport("c", 1, "c"));
+        g.files[1].comps.push_back(cLocal("c", {"v1"}));
+        g.files[1].units.push_back(uLocal("v1", {"w1"}));
+        g.files[1].units.push_back(uImport("w1", 2, "u"));
+        break;
+    case 2: { // child d1 of c with a variable in w1, w1 imported
+        g.files[0].comps.push_back(cImport("c", 1, "c"));
+        CEnt c = cLocal("c", {"second"});
+        c.kids.push_back(cLocal("d1", {"w1"}));
+        g.files[1].comps.push_back(c);
+        g.files[1].units.push_back(uImport("w1", 2, "u"));
+        break;
+    }
+    case 3: // u = {w1, wb1} both from f2, f2's u imported from f3
+        g.files[0].units.push_back(uImport("u", 1, "u"));
+        g.files[1].units.push_back(uLocal("u", {"w1", "wb1"}));
+        g.files[1].units.push_back(uImport("w1", 2, "u"));
+        g.files[1].units.push_back(uImport("wb1", 2, "u"));
+        g.files[2].units.clear();
+        g.files[2].units.push_back(uImport("u", 3, "u"));
+        break;
+    case 4: // cycle of ordinary units in f1
+        g.files[0].units.push_back(uImport("u", 1, "u"));
+        g.files[1].units.push_back(uLocal("u", {"second", "u"}));
+        break;
+    default: { // child d1 of c imports f2's c, which imports itself
+        g.files[0].comps.push_back(cImport("c", 1, "c"));
+        CEnt c = cLocal("c", {"second"});
+        c.kids.push_back(cImport("d1", 2, "c"));
+        g.files[1].comps.push_back(c);
+        g.files[2].comps.clear();
+        g.files[2].comps.push_back(cImport("c", 2, "c"));
+        break;
+    }
+    }
+    return g;
+}
+
+void probeChild(void *arg)
+{
+    const int which = static_cast<ProbeJob *>(arg)->which;
+    signal(SIGALRM, SIG_DFL);
+    alarm(15);
+    struct rlimit rl;
+    if (getrlimit(RLIMIT_STACK, &rl) == 0 && (rl.rlim_cur == RLIM_INFINITY || rl.rlim_cur > (64ul << 20))) {
+        rl.rlim_cur = 64ul << 20;
+        setrlimit(RLIMIT_STACK, &rl);
+    }
+    Graph g = probeGraph(which);
+    auto imp = Importer::create(true);
+    for (int i = 1; i <= 3; ++i) {
+        auto p = Parser::create(true);
+        imp->addModel(p->parseModel(serialise(g, i)), g.files[static_cast<size_t>(i)].fname);
+    }
+    auto p = Parser::create(true);
+    auto m = p->parseModel(serialise(g, 0));
+    bool r = imp->resolveImports(m, "/nonexistent-c07/");
+    bool present;
+    if (which <= 2) {
+        present = r && m->hasUnresolvedImports();
+    } else if (which == 3) {
+        present = r && imp->flattenModel(m) == nullptr;
+    } else {
+        emit("PROBE-BEFORE-FLATTEN");
+        (void)imp->flattenModel(m); // dies (or is killed by the alarm) when the defect is present
+        present = false;
+    }
+    emit(std::string("PROBE\t") + (present ? "1" : "0"));
+}
+
+void probeDefects()
+{
+    bool *flags[] = {&gDef.fetchSkipsUnitChildOfLocalUnitChild, &gDef.fetchSkipsUnitChildOfComponentUnits, &gDef.fetchSkipsUnitsOfChildComponent,
+                     &gDef.falseFlattenCycle, &gDef.unitCycleOverflow, &gDef.flattenAfterCycle};
+    for (int i = 0; i < 6; ++i) {
+        ProbeJob job {i};
+        std::string diag;
+        int ret = runIsolated(probeChild, &job, 0, &diag);
+        if (diag.find("VPR\tPROBE\t0") != std::string::npos && ret == 0) {
+            *flags[i] = false;
+        } else if (diag.find("VPR\tPROBE\t1") != std::string::npos) {
+            *flags[i] = true;
+        } else {
+            *flags[i] = true; // the child died: present (probes 4, 5), or the probe itself is broken: stay on the careful side
+        }
+    }
+}
+
+void initProcess()
+{
+    warmUp();
+    if (getenv("VERIF_C07_DRY") == nullptr) {
+        probeDefects();
+    }
+}
+
 } // namespace
+
+// Every case forks; the cost of fork() grows with the resident set of the worker, most of which would be ASan's quarantine
+// of freed memory (256 MiB by default). A small quarantine keeps forking cheap and does not weaken detection in the
+// short-lived children. (ASAN_OPTIONS from the environment still override this.)
+extern "C" const char *__asan_default_options()
+{
+    return "quarantine_size_mb=8";
+}
+
+extern "C" const char *__ubsan_default_options()
+{
+    return "print_stacktrace=1"; // so that a dead child's report names the libcellml frame also outside bin/check
+}
 
 namespace vp {
 Property property = {
@@ -2047,5 +2420,6 @@ Property property = {
      "with a cycle of ordinary units flattenModel may return null (with an issue) although every import resolves",
      "'fresh resolution' after the repair: removeAllModels() followed by resolveImports() on the same importer, and a new importer",
      "hang confirmation uses a 300 s limit on the sanitised build instead of the plain build"},
+    initProcess,
 };
 }
